@@ -137,18 +137,22 @@ struct Job {
     nshards: u64,
     out: PathBuf,
     journal: PathBuf,
+    /// run exactly one case (isolated cases, confirmations, replays)
+    only: Option<(String, u64)>,
 }
 
 struct Running {
     job: Job,
     child: Child,
     started: Instant,
+    last_journal: Vec<u8>,
+    last_change: Instant,
 }
 
 fn spawn(job: &Job, id: &str, tier: Tier, seed: u64, repo: &Path, work: &Path, verif: &Path, only: Option<&(String, u64)>, mem_kb: u64) -> std::io::Result<Child> {
     let mut c = Command::new("sh");
     c.arg("-c")
-        .arg(format!("ulimit -v {mem_kb}; exec \"$0\" \"$@\""))
+        .arg(if job.profile == "dbg" || job.profile == "rel" { format!("ulimit -v {mem_kb}; exec \"$0\" \"$@\"") } else { "exec \"$0\" \"$@\"".to_string() })
         .arg(&job.bin)
         .arg("run")
         .arg(id)
@@ -170,7 +174,7 @@ fn spawn(job: &Job, id: &str, tier: Tier, seed: u64, repo: &Path, work: &Path, v
         .arg(&job.out)
         .arg("--journal")
         .arg(&job.journal);
-    if let Some((s, i)) = only {
+    if let Some((s, i)) = job.only.as_ref().or(only) {
         c.arg("--only").arg(format!("{s}:{i}"));
     }
     c.stdin(Stdio::null());
@@ -237,7 +241,8 @@ fn cmd_check(args: &[String]) -> i32 {
     let watchdog = Duration::from_secs(
         arg(args, "--watchdog").and_then(|s| s.parse().ok()).unwrap_or(if tier == Tier::Quick { 900 } else { 5400 }),
     );
-    let mem_kb: u64 = 12 * 1024 * 1024;
+    let mem_kb: u64 = 6 * 1024 * 1024;
+    let stall = Duration::from_secs(arg(args, "--stall").and_then(|s| s.parse().ok()).unwrap_or(if tier == Tier::Quick { 240 } else { 900 }));
     let mut queue: Vec<Job> = vec![];
     let n = if only.is_some() { 1 } else { nshards };
     for (pname, bin) in &bins {
@@ -249,7 +254,27 @@ fn cmd_check(args: &[String]) -> i32 {
                 nshards: n,
                 out: out_dir.join(format!("{pname}-{s}.json")),
                 journal: out_dir.join(format!("{pname}-{s}.journal")),
+                only: None,
             });
+        }
+    }
+    // isolated cases: one process each
+    let mut n_iso = 0usize;
+    if only.is_none() {
+        let iso = props::isolated_cases(&id, tier == Tier::Quick, seed);
+        for (pname, bin) in &bins {
+            for (k, case) in iso.iter().enumerate() {
+                n_iso += 1;
+                queue.push(Job {
+                    profile: pname.clone(),
+                    bin: bin.clone(),
+                    shard: 0,
+                    nshards: 1,
+                    out: out_dir.join(format!("iso-{pname}-{k}.json")),
+                    journal: out_dir.join(format!("iso-{pname}-{k}.journal")),
+                    only: Some(case.clone()),
+                });
+            }
         }
     }
     // interleave profiles so that slow dbg shards start early
@@ -260,11 +285,12 @@ fn cmd_check(args: &[String]) -> i32 {
     let mut inconclusive: Vec<String> = vec![];
     let mut harness_errors: Vec<String> = vec![];
 
+    let mut last_poll_outer = Instant::now();
     while !queue.is_empty() || !running.is_empty() {
         while running.len() < jobs && !queue.is_empty() {
             let job = queue.pop().unwrap();
             match spawn(&job, &id, tier, seed, &repo, &work, &verif, only.as_ref(), mem_kb) {
-                Ok(child) => running.push(Running { job, child, started: Instant::now() }),
+                Ok(child) => running.push(Running { job, child, started: Instant::now(), last_journal: vec![], last_change: Instant::now() }),
                 Err(e) => {
                     harness_errors.push(format!("cannot spawn shard: {e}"));
                 }
@@ -272,6 +298,11 @@ fn cmd_check(args: &[String]) -> i32 {
         }
         let mut i = 0;
         let mut progressed = false;
+        let poll_now = last_poll_outer.elapsed() > Duration::from_millis(1000);
+        let last_poll = if poll_now { Instant::now() - Duration::from_millis(2000) } else { Instant::now() };
+        if poll_now {
+            last_poll_outer = Instant::now();
+        }
         while i < running.len() {
             let done = match running[i].child.try_wait() {
                 Ok(Some(st)) => Some(st),
@@ -307,13 +338,27 @@ fn cmd_check(args: &[String]) -> i32 {
                 }
                 continue;
             }
-            if running[i].started.elapsed() > watchdog {
+            // stall detection through the per-case journal (checked about once a second)
+            if last_poll.elapsed() > Duration::from_millis(1000) {
+                let cur = fs::read(&running[i].job.journal).unwrap_or_default();
+                if cur != running[i].last_journal {
+                    running[i].last_journal = cur;
+                    running[i].last_change = Instant::now();
+                }
+            }
+            let stalled = !running[i].last_journal.is_empty() && running[i].last_change.elapsed() > stall;
+            if running[i].started.elapsed() > watchdog || stalled {
                 progressed = true;
                 let mut r = running.swap_remove(i);
                 let _ = r.child.kill();
                 let _ = r.child.wait();
                 let at = read_journal(&r.job.journal);
-                inconclusive.push(format!("watchdog: shard {}-{} exceeded {}s at {:?}", r.job.profile, r.job.shard, watchdog.as_secs(), at));
+                match (stalled, at) {
+                    (true, Some((stream, idx, entry))) => {
+                        crashes.push((r.job.profile.clone(), stream, idx, entry, format!("no progress for {}s", stall.as_secs())));
+                    }
+                    (_, at) => inconclusive.push(format!("watchdog: shard {}-{} exceeded {}s at {:?}", r.job.profile, r.job.shard, watchdog.as_secs(), at)),
+                }
                 continue;
             }
             i += 1;
@@ -328,7 +373,7 @@ fn cmd_check(args: &[String]) -> i32 {
     let mut violations: Vec<(String, String, String, bool)> = vec![]; // sig, what, replay, known
     let mut seen_crash: HashSet<String> = HashSet::new();
     for (profile, stream, idx, entry, how) in &crashes {
-        let sig = format!("crash|{}|{}", entry, how.split(';').next().unwrap_or(""));
+        let sig = format!("crash|{}|{}|{}", entry, how.split(';').next().unwrap_or(""), stream);
         if !seen_crash.insert(sig.clone()) {
             continue;
         }
@@ -340,6 +385,7 @@ fn cmd_check(args: &[String]) -> i32 {
             nshards: 1,
             out: out_dir.join(format!("confirm-{profile}-{idx}.json")),
             journal: out_dir.join(format!("confirm-{profile}-{idx}.journal")),
+            only: None,
         };
         let only1 = (stream.clone(), *idx);
         let confirmed = if only.is_some() {
@@ -352,7 +398,7 @@ fn cmd_check(args: &[String]) -> i32 {
                         match child.try_wait() {
                             Ok(Some(st)) => break !(st.success() && job.out.exists()),
                             Ok(None) => {
-                                if start.elapsed() > watchdog {
+                                if start.elapsed() > stall {
                                     let _ = child.kill();
                                     let _ = child.wait();
                                     break true;
